@@ -108,7 +108,7 @@ def dopri5Params (L : HLits α) (xend posneg uround safety scaleMin scaleMax bet
   let expo1 : α := Gen.Dopri5.expo1 beta
   { xend := xend, posneg := posneg, uround := uround, safety := safety, facc1 := facc1, facc2 := facc2, beta := beta,
     expo1 := expo1, hmax := hmax, nmax := nmax, nstiff := nstiff, dense := dense, stiffLimit := L.stiffLimit,
-    one := L.one, facoldMin := L.one, quarter := L.quarter, half := L.half, threeq := L.threeq,
+    one := L.one, quarter := L.quarter, half := L.half, threeq := L.threeq,
     underflow := fun h x u => Gen.Dopri5.underflowGuard h x u, underflowDec := fun _ _ _ => inferInstance,
     lastG := fun x h e p => Gen.Dopri5.lastGuard x h e p, lastDec := fun _ _ _ _ => inferInstance,
     hnewCalc := fun err facold h =>
@@ -125,7 +125,7 @@ def dop853Params (L : HLits α) (xend posneg uround safety scaleMin scaleMax bet
   let expo1 : α := Gen.Dop853.expo1 beta
   { xend := xend, posneg := posneg, uround := uround, safety := safety, facc1 := facc1, facc2 := facc2, beta := beta,
     expo1 := expo1, hmax := hmax, nmax := nmax, nstiff := nstiff, dense := dense, stiffLimit := L.stiffLimit,
-    one := L.one, facoldMin := L.one, quarter := L.quarter, half := L.half, threeq := L.threeq,
+    one := L.one, quarter := L.quarter, half := L.half, threeq := L.threeq,
     underflow := fun h x u => Gen.Dop853.underflowGuard h x u, underflowDec := fun _ _ _ => inferInstance,
     lastG := fun x h e p => Gen.Dop853.lastGuard x h e p, lastDec := fun _ _ _ _ => inferInstance,
     hnewCalc := fun err facold h =>
